@@ -615,4 +615,552 @@ theorem solo_sim (L prog) (hd : Disjoint L prog) (t : Tid) (σ : List Tid) (s s'
         exact ⟨n + 1, hn⟩
     · exact ih _ s' (agree_other hd hu A)
 
+/-! ## sequential runs of builder programs end pristine -/
+
+theorem body_replace (f r wo) (k : Nat) (mi : MI) (h : (bodyOf (.replace f r wo))[k]? = some mi) :
+    (k = 0 ∧ mi = .write (.restore f)) ∨ (k = 1 ∧ mi = .unregister f) ∨ (k = 2 ∧ mi = .register f r) ∨
+    (k = 3 ∧ wo = true ∧ mi = .write (.tramp f)) := by
+  match k with
+  | 0 => simp [bodyOf] at h; simp [h]
+  | 1 => simp [bodyOf] at h; simp [h]
+  | 2 => simp [bodyOf] at h; simp [h]
+  | 3 => cases wo <;> simp [bodyOf] at h; simp [h]
+  | k + 4 => cases wo <;> simp [bodyOf] at h
+
+theorem body_apply (f) (k : Nat) (mi : MI) (h : (bodyOf (.apply f))[k]? = some mi) :
+    (k = 0 ∧ mi = .setApplied f) ∨ (k = 1 ∧ mi = .write (.jump f)) := by
+  match k with
+  | 0 => simp [bodyOf] at h; simp [h]
+  | 1 => simp [bodyOf] at h; simp [h]
+  | k + 2 => simp [bodyOf] at h
+
+theorem body_unpatch (f) (k : Nat) (mi : MI) (h : (bodyOf (.unpatch f))[k]? = some mi) :
+    k = 0 ∧ mi = .write (.restore f) := by
+  match k with
+  | 0 => simp [bodyOf] at h; simp [h]
+  | k + 1 => simp [bodyOf] at h
+
+theorem wscript_copy (L : Layout) (wk : WKind) (j : Nat) (ws : WStep) (h : (wscript L wk)[j]? = some ws) :
+    (ws = .copy ↔ j = (L.pages (wloc L wk)).length) := by
+  unfold wscript at h
+  generalize L.pages (wloc L wk) = pg at h
+  by_cases h1 : j < pg.length
+  · simp [List.getElem?_append, h1] at h
+    constructor
+    · intro e; subst e; simp at h
+    · intro e; omega
+  · by_cases h2 : j = pg.length
+    · subst h2; simp [List.getElem?_append] at h; simp [h]
+    · have : pg.length < j := by omega
+      constructor
+      · intro e; subst e
+        rw [List.getElem?_append_right (by simp; omega)] at h
+        simp at h
+      · intro e; omega
+
+theorem body_call (f a) (k : Nat) (mi : MI) (h : (bodyOf (.call f a))[k]? = some mi) : False := by
+  simp [bodyOf] at h
+
+structure SInv (L : Layout) (prog : Tid → List Sec) (t : Tid) (Target : Loc → Prop) (T : Nat) (s : St) : Prop where
+  J : ∀ f, Target f → (s.patches f = none → s.text f = .pristine) ∧
+        (∀ g, s.patches f = some g → g.originBytes = .pristine ∧ (g.applied = false → s.text f = .pristine))
+  K : ∀ sec k, (prog t)[(s.th t).ip]? = some sec → (s.th t).cur = some k → k ≤ (bodyOf sec).length
+  R0 : ∀ sec k f j, (prog t)[(s.th t).ip]? = some sec → (s.th t).cur = some k → (bodyOf sec)[k]? = some (.write (.restore f)) →
+        (s.th t).w = some j → ∃ g, s.patches f = some g
+  R : ∀ sec k f j, (prog t)[(s.th t).ip]? = some sec → (s.th t).cur = some k → (bodyOf sec)[k]? = some (.write (.restore f)) →
+        (s.th t).w = some j → (L.pages f).length < j → Target f → s.text f = .pristine
+  Q : ∀ sec k f, (prog t)[(s.th t).ip]? = some sec → (s.th t).cur = some k → (k = 1 ∨ k = 2) →
+        (bodyOf sec)[0]? = some (.write (.restore f)) → Target f → s.text f = .pristine
+  A : ∀ f g, (prog t)[(s.th t).ip]? = some (.apply f) → (s.th t).cur = some 1 → s.patches f = some g → g.applied = true
+  F : ∀ i f, T ≤ i → i < (s.th t).ip → (prog t)[i]? = some (.unpatch f) → Target f → s.text f = .pristine
+
+variable {L : Layout} {prog : Tid → List Sec} {t : Tid} {Target : Loc → Prop} {T : Nat}
+
+theorem SInv_K {s s'} (I : SInv L prog t Target T s) (tr : Tr L prog t s s') :
+    ∀ sec k, (prog t)[(s'.th t).ip]? = some sec → (s'.th t).cur = some k → k ≤ (bodyOf sec).length := by
+  have K := I.K
+  cases tr with
+  | stutter => exact K
+  | _ =>
+    intro sec' k'
+    simp only [th_setTh, if_true, execW_th, execT_th, logAcc_th]
+    grind
+
+theorem execW_text_noncopy (L : Layout) (t wk ws s) (h : ws ≠ WStep.copy) : (execW L t wk ws s).text = s.text := by
+  cases ws with
+  | copy => exact absurd rfl h
+  | protW pg => rfl
+  | protX pg => rfl
+
+theorem SInv_J {s s'} (hplh : ∀ f g, Target f → L.plh g ≠ f) (I : SInv L prog t Target T s) (tr : Tr L prog t s s') :
+    ∀ f, Target f → (s'.patches f = none → s'.text f = .pristine) ∧
+        (∀ g, s'.patches f = some g → g.originBytes = .pristine ∧ (g.applied = false → s'.text f = .pristine)) := by
+  have J := I.J
+  cases tr with
+  | stutter => exact J
+  | call f a h1 h2 => exact J
+  | acqP sec h1 h2 h3 h4 => exact J
+  | relP sec k h1 h2 h3 => exact J
+  | wskip sec k wk h1 h2 h3 h4 h5 => exact J
+  | acqM sec k wk h1 h2 h3 h4 h5 h6 => exact J
+  | relM sec k wk j h1 h2 h3 h4 h5 => exact J
+  | wph sec k wk j ws h1 h2 h3 h4 h5 =>
+    intro f hf
+    simp only [setTh_text, setTh_patches, execW_patches]
+    by_cases hc : ws = .copy
+    · subst hc
+      cases wk with
+      | jump f' =>
+        have hsec : sec = .apply f' ∧ k = 1 := by
+          cases sec with
+          | replace a b c => rcases body_replace a b c k _ h3 with ⟨_, e⟩ | ⟨_, e⟩ | ⟨_, e⟩ | ⟨_, _, e⟩ <;> cases e
+          | apply a => rcases body_apply a k _ h3 with ⟨_, e⟩ | ⟨hk, e⟩ <;> cases e; exact ⟨rfl, hk⟩
+          | unpatch a => cases (body_unpatch a k _ h3).2
+          | call a b => exact (body_call a b k _ h3).elim
+        obtain ⟨rfl, rfl⟩ := hsec
+        simp only [execW, logAcc_patches, logAcc_text]
+        cases hp : s.patches f' with
+        | none => exact J f hf
+        | some g =>
+          have ha := I.A f' g h1 h2 hp
+          by_cases e : f = f'
+          · subst e
+            refine ⟨fun h => (by rw [hp] at h; cases h), fun g' hg' => ?_⟩
+            rw [hp] at hg'; cases hg'
+            exact ⟨((J f hf).2 g hp).1, fun h => (by rw [ha] at h; cases h)⟩
+          · simp only [upd, e, if_false]; exact J f hf
+      | restore f' =>
+        simp only [execW, logAcc_patches, logAcc_text]
+        cases hp : s.patches f' with
+        | none => exact J f hf
+        | some g =>
+          by_cases e : f = f'
+          · subst e
+            have := ((J f hf).2 g hp).1
+            simp only [upd, if_true]
+            exact ⟨fun _ => this, fun g' hg' => ⟨((J f hf).2 g' hg').1, fun _ => this⟩⟩
+          · simp only [upd, e, if_false]; exact J f hf
+      | tramp f' =>
+        simp only [execW, logAcc_patches, logAcc_text]
+        have e : f ≠ L.plh f' := fun h => hplh f f' hf h.symm
+        simp only [upd, e, if_false]; exact J f hf
+    · rw [execW_text_noncopy L t wk ws s hc]; exact J f hf
+  | tab sec k mi h1 h2 h3 h4 =>
+    intro f hf
+    simp only [setTh_text, setTh_patches, execT_text]
+    cases mi with
+    | write wk => simp [MI.isWrite] at h4
+    | unregister f' =>
+      have hsec : ∃ r wo, sec = .replace f' r wo ∧ k = 1 := by
+        cases sec with
+        | replace a b c => rcases body_replace a b c k _ h3 with ⟨_, e⟩ | ⟨hk, e⟩ | ⟨_, e⟩ | ⟨_, _, e⟩ <;> cases e; exact ⟨b, c, rfl, hk⟩
+        | apply a => rcases body_apply a k _ h3 with ⟨_, e⟩ | ⟨hk, e⟩ <;> cases e
+        | unpatch a => cases (body_unpatch a k _ h3).2
+        | call a b => exact (body_call a b k _ h3).elim
+      obtain ⟨r, wo, rfl, rfl⟩ := hsec
+      simp only [execT, logAcc_patches]
+      by_cases e : f = f'
+      · subst e
+        have hq := I.Q _ 1 f h1 h2 (Or.inl rfl) (by simp [bodyOf]) hf
+        simp only [upd, if_true]
+        exact ⟨fun _ => hq, fun g hg => (by cases hg)⟩
+      · simp only [upd, e, if_false]; exact J f hf
+    | register f' r =>
+      have hsec : ∃ wo, sec = .replace f' r wo ∧ k = 2 := by
+        cases sec with
+        | replace a b c => rcases body_replace a b c k _ h3 with ⟨_, e⟩ | ⟨hk, e⟩ | ⟨hk, e⟩ | ⟨_, _, e⟩ <;> cases e; exact ⟨c, rfl, hk⟩
+        | apply a => rcases body_apply a k _ h3 with ⟨_, e⟩ | ⟨hk, e⟩ <;> cases e
+        | unpatch a => cases (body_unpatch a k _ h3).2
+        | call a b => exact (body_call a b k _ h3).elim
+      obtain ⟨wo, rfl, rfl⟩ := hsec
+      simp only [execT, logAcc_patches, logAcc_text]
+      by_cases e : f = f'
+      · subst e
+        have hq := I.Q _ 2 f h1 h2 (Or.inr rfl) (by simp [bodyOf]) hf
+        simp only [upd, if_true]
+        refine ⟨fun h => (by cases h), fun g hg => ?_⟩
+        cases hg
+        exact ⟨hq, fun _ => hq⟩
+      · simp only [upd, e, if_false]; exact J f hf
+    | setApplied f' =>
+      simp only [execT, logAcc_patches]
+      cases hp : s.patches f' with
+      | none => exact J f hf
+      | some g =>
+        by_cases e : f = f'
+        · subst e
+          simp only [upd, if_true]
+          refine ⟨fun h => (by cases h), fun g' hg' => ?_⟩
+          cases hg'
+          exact ⟨((J f hf).2 g hp).1, fun h => (by cases h)⟩
+        · simp only [upd, e, if_false]; exact J f hf
+
+theorem w_none_of_cur_none {s : St} (LI : LInv prog s) (h : (s.th t).cur = none) : (s.th t).w = none := by
+  cases hw : (s.th t).w with
+  | none => rfl
+  | some j => have := (LI.mm t (by simp [hw])).2; simp [h] at this
+
+theorem w_none_at_tab {s : St} (LI : LInv prog s) {sec k mi} (h1 : (prog t)[(s.th t).ip]? = some sec) (h2 : (s.th t).cur = some k)
+    (h3 : (bodyOf sec)[k]? = some mi) (h4 : mi.isWrite = false) : (s.th t).w = none := by
+  cases hw : (s.th t).w with
+  | none => rfl
+  | some j =>
+    obtain ⟨sec', k', wk, e1, e2, e3⟩ := LI.wpos t (by simp [hw])
+    rw [h1] at e1; injection e1 with e1; subst e1
+    rw [h2] at e2; injection e2 with e2; subst e2
+    rw [h3] at e3; injection e3 with e3; subst e3
+    simp [MI.isWrite] at h4
+
+theorem SInv_R0 {s s'} (LI : LInv prog s) (I : SInv L prog t Target T s) (tr : Tr L prog t s s') :
+    ∀ sec k f j, (prog t)[(s'.th t).ip]? = some sec → (s'.th t).cur = some k → (bodyOf sec)[k]? = some (.write (.restore f)) →
+        (s'.th t).w = some j → ∃ g, s'.patches f = some g := by
+  have R0 := I.R0
+  cases tr with
+  | stutter => exact R0
+  | call f a h1 h2 => intro sec k f j; simp [th_setTh, h2]
+  | acqP sec h1 h2 h3 h4 => intro sec k f j; simp [th_setTh, w_none_of_cur_none LI h2]
+  | relP sec k h1 h2 h3 => intro sec k f j; simp [th_setTh]
+  | wskip sec k wk h1 h2 h3 h4 h5 => intro sec k f j; simp [th_setTh, h4]
+  | relM sec k wk j h1 h2 h3 h4 h5 => intro sec k f j; simp [th_setTh]
+  | tab sec k mi h1 h2 h3 h4 => intro sec k f j; simp [th_setTh, w_none_at_tab LI h1 h2 h3 h4]
+  | acqM sec k wk h1 h2 h3 h4 h5 h6 =>
+    intro sec' k' f j
+    simp only [th_setTh, if_true, setTh_patches, logAcc_patches]
+    intro e1 e2 e3 _
+    rw [h1] at e1; injection e1 with e1; subst e1
+    rw [h2] at e2; injection e2 with e2; subst e2
+    rw [h3] at e3; injection e3 with e3; injection e3 with e3; subst e3
+    simp only [wcond, logAcc_patches] at h5
+    cases hp : s.patches f with
+    | none => simp [hp] at h5
+    | some g => exact ⟨g, rfl⟩
+  | wph sec k wk j ws h1 h2 h3 h4 h5 =>
+    intro sec' k' f j'
+    simp only [th_setTh, if_true, setTh_patches, execW_patches]
+    intro e1 e2 e3 _
+    exact R0 sec' k' f j e1 e2 e3 h4
+
+theorem wscript_len (L : Layout) (wk : WKind) : (wscript L wk).length = 2 * (L.pages (wloc L wk)).length + 1 := by
+  simp [wscript]; omega
+
+theorem SInv_R {s s'} (LI : LInv prog s) (I : SInv L prog t Target T s) (tr : Tr L prog t s s') :
+    ∀ sec k f j, (prog t)[(s'.th t).ip]? = some sec → (s'.th t).cur = some k → (bodyOf sec)[k]? = some (.write (.restore f)) →
+        (s'.th t).w = some j → (L.pages f).length < j → Target f → s'.text f = .pristine := by
+  have R := I.R
+  cases tr with
+  | stutter => exact R
+  | call f a h1 h2 => intro sec k f j; simp [th_setTh, h2]
+  | acqP sec h1 h2 h3 h4 => intro sec k f j; simp [th_setTh, w_none_of_cur_none LI h2]
+  | relP sec k h1 h2 h3 => intro sec k f j; simp [th_setTh]
+  | wskip sec k wk h1 h2 h3 h4 h5 => intro sec k f j; simp [th_setTh, h4]
+  | relM sec k wk j h1 h2 h3 h4 h5 => intro sec k f j; simp [th_setTh]
+  | tab sec k mi h1 h2 h3 h4 => intro sec k f j; simp [th_setTh, w_none_at_tab LI h1 h2 h3 h4]
+  | acqM sec k wk h1 h2 h3 h4 h5 h6 =>
+    intro sec' k' f j
+    simp only [th_setTh, if_true]
+    intro _ _ _ e4 hlt; injection e4 with e4; omega
+  | wph sec k wk j ws h1 h2 h3 h4 h5 =>
+    intro sec' k' f j'
+    simp only [th_setTh, if_true, setTh_text]
+    intro e1 e2 e3 e4 hlt hT
+    injection e4 with e4; subst e4
+    have e1' := e1; rw [h1] at e1'; injection e1' with e1'; subst e1'
+    have e2' := e2; rw [h2] at e2'; injection e2' with e2'; subst e2'
+    have e3' := e3; rw [h3] at e3'; injection e3' with e3'; injection e3' with e3'; subst e3'
+    by_cases hc : ws = .copy
+    · subst hc
+      obtain ⟨g, hg⟩ := I.R0 _ _ f j e1 e2 e3 h4
+      simp only [execW, logAcc_patches, logAcc_text, hg, upd_same]
+      exact ((I.J f hT).2 g hg).1
+    · rw [execW_text_noncopy L t _ ws s hc]
+      have hne : j ≠ (L.pages f).length := fun e => hc ((wscript_copy L (.restore f) j ws h5).2 (by simpa [wloc] using e))
+      exact R _ _ f j e1 e2 e3 h4 (by omega) hT
+
+theorem body_q (sec : Sec) (f : Loc) (k : Nat) (wk : WKind) (h0 : (bodyOf sec)[0]? = some (.write (.restore f))) (hk : k = 1 ∨ k = 2)
+    (h : (bodyOf sec)[k]? = some (.write wk)) : False := by
+  cases sec with
+  | replace a b c => rcases body_replace a b c k _ h with ⟨e, _⟩ | ⟨_, e⟩ | ⟨_, e⟩ | ⟨e, _, _⟩ <;> first | omega | cases e
+  | apply a => simp [bodyOf] at h0
+  | unpatch a => have := (body_unpatch a k _ h).1; omega
+  | call a b => simp [bodyOf] at h0
+
+theorem SInv_Q {s s'} (LI : LInv prog s) (I : SInv L prog t Target T s) (tr : Tr L prog t s s') :
+    ∀ sec k f, (prog t)[(s'.th t).ip]? = some sec → (s'.th t).cur = some k → (k = 1 ∨ k = 2) →
+        (bodyOf sec)[0]? = some (.write (.restore f)) → Target f → s'.text f = .pristine := by
+  have Q := I.Q
+  cases tr with
+  | stutter => exact Q
+  | call f a h1 h2 => intro sec k f; simp [th_setTh, h2]
+  | acqP sec h1 h2 h3 h4 => intro sec k f; simp only [th_setTh, if_true]; intro _ e; injection e with e; omega
+  | relP sec k h1 h2 h3 => intro sec k f; simp [th_setTh]
+  | acqM sec k wk h1 h2 h3 h4 h5 h6 => intro sec' k' f; simp only [th_setTh, if_true, setTh_text, logAcc_text]; exact Q sec' k' f
+  | wph sec k wk j ws h1 h2 h3 h4 h5 =>
+    intro sec' k' f
+    simp only [th_setTh, if_true, setTh_text]
+    intro e1 e2 hk e0 hT
+    rw [h1] at e1; injection e1 with e1; subst e1
+    rw [h2] at e2; injection e2 with e2; subst e2
+    exact (body_q sec f k wk e0 hk h3).elim
+  | tab sec k mi h1 h2 h3 h4 =>
+    intro sec' k' f
+    simp only [th_setTh, if_true, setTh_text, execT_text]
+    intro e1 e2 hk e0 hT
+    injection e2 with e2
+    rw [h1] at e1; injection e1 with e1; subst e1
+    have hk1 : k = 1 := by
+      rcases hk with hk | hk
+      · have : k = 0 := by omega
+        subst this; rw [e0] at h3; injection h3 with h3; subst h3; simp [MI.isWrite] at h4
+      · omega
+    exact Q sec k f h1 h2 (Or.inl hk1) e0 hT
+  | wskip sec k wk h1 h2 h3 h4 h5 =>
+    intro sec' k' f
+    simp only [th_setTh, if_true, setTh_text, logAcc_text]
+    intro e1 e2 hk e0 hT
+    injection e2 with e2
+    rw [h1] at e1; injection e1 with e1; subst e1
+    rcases hk with hk | hk
+    · have : k = 0 := by omega
+      subst this; rw [e0] at h3; injection h3 with h3; injection h3 with h3; subst h3
+      simp only [wcond, logAcc_patches] at h5
+      cases hp : s.patches f with
+      | none => exact (I.J f hT).1 hp
+      | some g => rw [hp] at h5; exact ((I.J f hT).2 g hp).2 (by simpa using h5)
+    · exact Q sec k f h1 h2 (Or.inl (by omega)) e0 hT
+  | relM sec k wk j h1 h2 h3 h4 h5 =>
+    intro sec' k' f
+    simp only [th_setTh, if_true, setTh_text]
+    intro e1 e2 hk e0 hT
+    injection e2 with e2
+    rw [h1] at e1; injection e1 with e1; subst e1
+    rcases hk with hk | hk
+    · have : k = 0 := by omega
+      subst this
+      have h3' := h3; rw [e0] at h3'; injection h3' with h3'; injection h3' with h3'; subst h3'
+      have hl := wscript_len L (.restore f)
+      have : (wscript L (.restore f)).length ≤ j := by
+        rcases Nat.lt_or_ge j (wscript L (.restore f)).length with h | h
+        · rw [List.getElem?_eq_getElem h] at h5; cases h5
+        · exact h
+      simp only [wloc] at hl
+      exact I.R sec 0 f j h1 h2 h3 h4 (by omega) hT
+    · exact Q sec k f h1 h2 (Or.inl (by omega)) e0 hT
+
+theorem SInv_A {s s'} (LI : LInv prog s) (I : SInv L prog t Target T s) (tr : Tr L prog t s s') :
+    ∀ f g, (prog t)[(s'.th t).ip]? = some (.apply f) → (s'.th t).cur = some 1 → s'.patches f = some g → g.applied = true := by
+  have A := I.A
+  cases tr with
+  | stutter => exact A
+  | call f a h1 h2 => intro f g; simp [th_setTh, h2]
+  | acqP sec h1 h2 h3 h4 => intro f g; simp only [th_setTh, if_true]; intro _ e; injection e with e; omega
+  | relP sec k h1 h2 h3 => intro f g; simp [th_setTh]
+  | acqM sec k wk h1 h2 h3 h4 h5 h6 => intro f g; simp only [th_setTh, if_true, setTh_patches, logAcc_patches]; exact A f g
+  | wph sec k wk j ws h1 h2 h3 h4 h5 => intro f g; simp only [th_setTh, if_true, setTh_patches, execW_patches]; exact A f g
+  | wskip sec k wk h1 h2 h3 h4 h5 =>
+    intro f g
+    simp only [th_setTh, if_true]
+    intro e1 e2
+    injection e2 with e2
+    rw [h1] at e1; injection e1 with e1; subst e1
+    have : k = 0 := by omega
+    subst this; simp [bodyOf] at h3
+  | relM sec k wk j h1 h2 h3 h4 h5 =>
+    intro f g
+    simp only [th_setTh, if_true]
+    intro e1 e2
+    injection e2 with e2
+    rw [h1] at e1; injection e1 with e1; subst e1
+    have : k = 0 := by omega
+    subst this; simp [bodyOf] at h3
+  | tab sec k mi h1 h2 h3 h4 =>
+    intro f g
+    simp only [th_setTh, if_true, setTh_patches]
+    intro e1 e2
+    injection e2 with e2
+    rw [h1] at e1; injection e1 with e1; subst e1
+    have : k = 0 := by omega
+    subst this
+    simp [bodyOf] at h3; subst h3
+    simp only [execT, logAcc_patches]
+    cases hp : s.patches f with
+    | none => simp [hp]
+    | some g0 => simp only [upd_same]; intro e; injection e with e; subst e; rfl
+
+theorem SInv_F {s s'} (htail : ∀ i sec, T ≤ i → (prog t)[i]? = some sec → (∃ f, sec = .unpatch f) ∨ (∃ f a, sec = .call f a))
+    (I : SInv L prog t Target T s) (tr : Tr L prog t s s') :
+    ∀ i f, T ≤ i → i < (s'.th t).ip → (prog t)[i]? = some (.unpatch f) → Target f → s'.text f = .pristine := by
+  have F := I.F
+  cases tr with
+  | stutter => exact F
+  | acqP sec h1 h2 h3 h4 => intro i f; simp only [th_setTh, if_true, setTh_text, logAcc_text]; exact F i f
+  | wskip sec k wk h1 h2 h3 h4 h5 => intro i f; simp only [th_setTh, if_true, setTh_text, logAcc_text]; exact F i f
+  | acqM sec k wk h1 h2 h3 h4 h5 h6 => intro i f; simp only [th_setTh, if_true, setTh_text, logAcc_text]; exact F i f
+  | relM sec k wk j h1 h2 h3 h4 h5 => intro i f; simp only [th_setTh, if_true, setTh_text, logAcc_text]; exact F i f
+  | tab sec k mi h1 h2 h3 h4 => intro i f; simp only [th_setTh, if_true, setTh_text, execT_text]; exact F i f
+  | call f a h1 h2 =>
+    intro i f'
+    simp only [th_setTh, if_true, setTh_text]
+    intro hT hi e hTg
+    by_cases hi' : i < (s.th t).ip
+    · exact F i f' hT hi' e hTg
+    · have : i = (s.th t).ip := by omega
+      subst this; rw [h1] at e; cases e
+  | relP sec k h1 h2 h3 =>
+    intro i f'
+    simp only [th_setTh, if_true, setTh_text]
+    intro hT hi e hTg
+    by_cases hi' : i < (s.th t).ip
+    · exact F i f' hT hi' e hTg
+    · have : i = (s.th t).ip := by omega
+      subst this; rw [h1] at e; injection e with e; subst e
+      have hk := I.K _ k h1 h2
+      have hk2 : (bodyOf (Sec.unpatch f')).length ≤ k := by
+        rcases Nat.lt_or_ge k (bodyOf (Sec.unpatch f')).length with h | h
+        · rw [List.getElem?_eq_getElem h] at h3; cases h3
+        · exact h
+      simp [bodyOf] at hk hk2
+      have : k = 1 := by omega
+      subst this
+      exact I.Q _ 1 f' h1 h2 (Or.inl rfl) (by simp [bodyOf]) hTg
+  | wph sec k wk j ws h1 h2 h3 h4 h5 =>
+    intro i f
+    simp only [th_setTh, if_true, setTh_text]
+    intro hT hi e hTg
+    have hb := F i f hT hi e hTg
+    by_cases hc : ws = .copy
+    · subst hc
+      rcases htail (s.th t).ip sec (by omega) h1 with ⟨f', rfl⟩ | ⟨f', a, rfl⟩
+      · have := (body_unpatch f' k _ h3).2
+        injection this with this; subst this
+        simp only [execW, logAcc_patches, logAcc_text]
+        cases hp : s.patches f' with
+        | none => exact hb
+        | some g =>
+          by_cases ef : f = f'
+          · subst ef; simp only [upd_same]; exact ((I.J f hTg).2 g hp).1
+          · simp only [upd, ef, if_false]; exact hb
+      · exact (body_call f' a k _ h3).elim
+    · rw [execW_text_noncopy L t wk ws s hc]; exact hb
+
+theorem SInv_tr {s s'} (hplh : ∀ f g, Target f → L.plh g ≠ f)
+    (htail : ∀ i sec, T ≤ i → (prog t)[i]? = some sec → (∃ f, sec = .unpatch f) ∨ (∃ f a, sec = .call f a))
+    (LI : LInv prog s) (I : SInv L prog t Target T s) (tr : Tr L prog t s s') : SInv L prog t Target T s' :=
+  ⟨SInv_J hplh I tr, SInv_K I tr, SInv_R0 LI I tr, SInv_R LI I tr, SInv_Q LI I tr, SInv_A LI I tr, SInv_F htail I tr⟩
+
+theorem SInv_init : SInv L prog t Target T (init (fun _ => .pristine)) := by
+  constructor <;> simp [init]
+
+theorem SInv_solo (hplh : ∀ f g, Target f → L.plh g ≠ f)
+    (htail : ∀ i sec, T ≤ i → (prog t)[i]? = some sec → (∃ f, sec = .unpatch f) ∨ (∃ f a, sec = .call f a))
+    (n : Nat) (s : St) (LI : LInv prog s) (I : SInv L prog t Target T s) :
+    SInv L prog t Target T (solo L prog t n s) := by
+  induction n generalizing s with
+  | zero => exact I
+  | succ n ih =>
+    have tr := step_tr L prog t s
+    exact ih _ (LInv_tr LI tr) (SInv_tr hplh htail LI I tr)
+
+/-- a builder thread whose program ends with `unpatch` of every target it writes ends pristine when run alone -/
+theorem seq_restored (hplh : ∀ f g, Target f → L.plh g ≠ f)
+    (htail : ∀ i sec, T ≤ i → (prog t)[i]? = some sec → (∃ f, sec = .unpatch f) ∨ (∃ f a, sec = .call f a))
+    (hcover : ∀ f, Target f → Writes L prog t f → ∃ i, T ≤ i ∧ (prog t)[i]? = some (.unpatch f))
+    (n : Nat) (hd : done prog (solo L prog t n (init (fun _ => .pristine))) t) (f : Loc) (hT : Target f) (hw : Writes L prog t f) :
+    (solo L prog t n (init (fun _ => .pristine))).text f = .pristine := by
+  have I := SInv_solo (T := T) hplh htail n _ (LInv_init prog _) (SInv_init (L := L) (prog := prog) (t := t) (Target := Target) (T := T))
+  obtain ⟨i, hi, he⟩ := hcover f hT hw
+  have hlt : i < (prog t).length := by
+    rcases Nat.lt_or_ge i (prog t).length with h | h
+    · exact h
+    · rw [List.getElem?_eq_none h] at he; cases he
+  exact I.F i f hi (Nat.lt_of_lt_of_le hlt hd.1) he hT
+
+/-! ## the generator's program class has the tail shape -/
+
+theorem mem_insertSorted (x f : Nat) (m : List Nat) : x ∈ insertSorted f m ↔ x = f ∨ x ∈ m := by
+  induction m with
+  | nil => simp [insertSorted]
+  | cons y ys ih =>
+    simp only [insertSorted]
+    split
+    · simp
+    · split
+      · rename_i h; subst h; simp
+      · simp [ih]; constructor <;> (intro h; rcases h with h | h | h <;> simp [h])
+
+theorem compileOps_append (tg : List Loc) (a b : List BOp) (m : List Loc) :
+    compileOps tg (a ++ b) m = compileOps tg a m ++ compileOps tg b (mockedAfter a m) := by
+  induction a generalizing m with
+  | nil => simp [compileOps, mockedAfter]
+  | cons op rest ih => cases op <;> simp [compileOps, mockedAfter, ih]
+
+/-- every generated builder program (`… ; reset ; chk`) is in the class -/
+theorem builderProg_eq (tg : List Loc) (ops : List BOp) : compileOps tg (ops ++ [.reset, .chk]) [] = builderProg tg ops := by
+  simp [compileOps_append, builderProg, compileOps]
+
+theorem mocked_mono (ops : List BOp) (m : List Loc) (x : Loc) (h : x ∈ m) : x ∈ mockedAfter ops m := by
+  induction ops generalizing m with
+  | nil => exact h
+  | cons op rest ih => cases op <;> simp only [mockedAfter] <;> apply ih <;> simp [mem_insertSorted, h]
+
+theorem compile_writes (L : Layout) (tg : List Loc) (ops : List BOp) (m : List Loc) (sec : Sec) (hs : sec ∈ compileOps tg ops m)
+    (f : Loc) (hf : f ∈ writesOf L sec) (hT : ∀ g, L.plh g ≠ f) : f ∈ mockedAfter ops m := by
+  induction ops generalizing m with
+  | nil => simp [compileOps] at hs
+  | cons op rest ih =>
+    cases op with
+    | mock f' r wo =>
+      simp only [compileOps, List.mem_append, List.mem_cons, List.not_mem_nil, or_false] at hs
+      rcases hs with (rfl | rfl) | hs
+      · have : f = f' := by
+          cases wo <;> simp [writesOf] at hf
+          · exact hf
+          · rcases hf with h | h
+            · exact h
+            · exact (hT f' h.symm).elim
+        subst this
+        exact mocked_mono rest _ f (by simp [mem_insertSorted])
+      · simp [writesOf] at hf; subst hf
+        exact mocked_mono rest _ f (by simp [mem_insertSorted])
+      · exact ih _ hs
+    | chk =>
+      simp only [compileOps, List.mem_append, List.mem_map] at hs
+      rcases hs with ⟨g, _, rfl⟩ | hs
+      · simp [writesOf] at hf
+      · exact ih _ hs
+    | reset =>
+      simp only [compileOps, List.mem_append, List.mem_map] at hs
+      rcases hs with ⟨g, hg, rfl⟩ | hs
+      · simp [writesOf] at hf; subst hf
+        exact mocked_mono rest _ f hg
+      · exact ih _ hs
+
+theorem builder_tail (tg : List Loc) (ops : List BOp) (i : Nat) (sec : Sec) (hi : (compileOps tg ops []).length ≤ i)
+    (h : (builderProg tg ops)[i]? = some sec) : (∃ f, sec = .unpatch f) ∨ (∃ f a, sec = .call f a) := by
+  unfold builderProg at h
+  rw [List.getElem?_append_right hi] at h
+  have hm := List.mem_of_getElem? h
+  simp only [List.mem_append, List.mem_map] at hm
+  rcases hm with ⟨f, _, rfl⟩ | ⟨f, _, rfl⟩
+  · exact Or.inl ⟨f, rfl⟩
+  · exact Or.inr ⟨f, 3, rfl⟩
+
+theorem builder_cover (L : Layout) (tg : List Loc) (ops : List BOp) (f : Loc) (hT : ∀ g, L.plh g ≠ f)
+    (hw : ∃ sec ∈ builderProg tg ops, f ∈ writesOf L sec) :
+    ∃ i, (compileOps tg ops []).length ≤ i ∧ (builderProg tg ops)[i]? = some (.unpatch f) := by
+  obtain ⟨sec, hs, hf⟩ := hw
+  have hm : f ∈ mockedAfter ops [] := by
+    unfold builderProg at hs
+    simp only [List.mem_append, List.mem_map] at hs
+    rcases hs with hs | ⟨g, hg, rfl⟩ | ⟨g, _, rfl⟩
+    · exact compile_writes L tg ops [] sec hs f hf hT
+    · simp [writesOf] at hf; subst hf; exact hg
+    · simp [writesOf] at hf
+  obtain ⟨j, hj, hje⟩ := List.getElem_of_mem hm
+  refine ⟨(compileOps tg ops []).length + j, Nat.le_add_right _ _, ?_⟩
+  unfold builderProg
+  rw [List.getElem?_append_right (Nat.le_add_right _ _)]
+  simp only [Nat.add_sub_cancel_left]
+  rw [List.getElem?_append_left (by simpa using hj)]
+  simp [hj, hje]
+
 end Conc
